@@ -1255,6 +1255,85 @@ def tags(case, real):
     return t
 
 
+# ---------------------------------------------------------------------------
+# extra: values for which `==` is not reflexive or not terminating on its own (outside the Lean model, whose values
+# are trees with structural equality): NaN and references back to the instance (fixed finding d1be94e)
+# ---------------------------------------------------------------------------
+
+
+def extra(tier, rng):
+    import copy
+    from typing import Any, List
+
+    from spec_classes import Attr, spec_class
+
+    @spec_class(bootstrap=True)
+    class N:
+        a: Any = None
+        b: List[Any] = []
+        c: Any = Attr(default=None, compare=False)
+
+    nan = float("nan")
+    evaluations, violations, keys = 0, [], []
+
+    def judge(label, fn):
+        nonlocal evaluations
+        evaluations += 1
+        keys.append(label)
+        try:
+            problem = fn()
+        except BaseException as e:  # noqa: BLE001
+            problem = f"raised {type(e).__name__}"
+        if problem:
+            violations.append({"case": {"extra": "identity", "probe": label}, "violation": [f"{label}: {problem}"]})
+
+    def reflexive(mk):
+        def go():
+            x = mk()
+            if not (x == x):
+                return "x == x is False"
+            if x != x:
+                return "x != x is True"
+            y = copy.deepcopy(x)
+            if not (y == x and x == y):
+                return "deepcopy(x) == x is False"
+        return go
+
+    judge("NaN attribute", reflexive(lambda: N(a=nan)))
+    judge("NaN inside a list attribute", reflexive(lambda: N(b=[1, nan])))
+    judge("NaN in a compare=False attribute", reflexive(lambda: N(a=1, c=nan)))
+
+    def selfref():
+        y = N()
+        y.a = y
+        if not (y == y):
+            return "y == y is False for y.a = y"
+        r = repr(y)
+        if "N(" not in r:
+            return f"repr is {r!r}"
+
+    judge("instance referring to itself", selfref)
+
+    def selfref_in_list():
+        y = N()
+        y.b = [y]
+        if not (y == y):
+            return "y == y is False for y.b = [y]"
+
+    judge("instance inside its own list attribute", selfref_in_list)
+
+    def differs():
+        x, y = N(a=nan), N(a=float("nan"))
+        z = N(a=1.0)
+        if x == z or z == x:
+            return "NaN equals 1.0"
+        if (x == y) != (y == x):
+            return "asymmetric on two different NaN objects"
+
+    judge("NaN vs other values", differs)
+    return {"evaluations": evaluations, "nontrivial": keys, "violations": violations, "disagreements": [], "info": {"identity_probes": evaluations}}
+
+
 MANIFEST_ENTRY = {
     "level_text": "Lean 4 proof about an executable model of EqMethod.eq under CPython's == dispatch, DeepCopyMethod.deepcopy, the constructor InitMethod.init (parent spec-class constructors base-most first with the forwarded keyword arguments, then the own attributes; any inheritance depth, plain subclasses, per-class defaults), re-construction through it and ReprMethod.repr over finite value trees (scalars, lists, dicts, sets, nested instances, bound methods, functions, classes, modules, MISSING): == is reflexive, symmetric and transitive, holds exactly when the classes are the same and every compare-enabled attribute is equal (missing only equals missing; a pair of bound methods by function), a difference at ANY attribute position is noticed, compare=False attributes are ignored, deepcopy(x)==x, the constructor shows every passed value (whatever it is - falsy ones included - and whichever class of the chain owns the attribute) and the default otherwise, re-construction from own values gives an equal instance, repr is total and lists exactly the repr-enabled attributes in declaration order. The model is tied to /repo on every run: generated class families are exec'd, a pool of instances (incl. a single-position mutant for every attribute position, subclasses, states reached through the constructor / setattr / with_<attr>, all-falsy states of every class, extra __dict__ state, self-references) is built, and ==, deepcopy, what the constructor shows for the keyword arguments of every state, re-construction and the parsed repr of ALL pairs/states are compared with the model; the oracle checks the equivalence laws and an attribute-wise reference comparison on the real results.",
     "level_note": "Trusted: Lean kernel; axioms propext/Classical.choice/Quot.sound only; the hand-written model and harness; CPython's == dispatch rule and its list/dict repr recursion guard. Equality theorems are about acyclic values (cyclic ones recurse in Python as for plain lists); repr covers self-references. The model's input states are the abstract states observed on the real instances.",
